@@ -262,6 +262,7 @@ CURATED = {
     "nestedortho": "C(O(O(l,l),C(l,l)),l)",
     "orthodeep": "O(C(C(l,C(l,l)),l),l)",
     "orthospine": "C(O(C(l,C(l,l)),l),l)",
+    "orthopair": "C(O(C(C(l,l),l),C(l,l)),l)",
     "wide5": "C(l,C(l,l),l,R(l,l),l)",
     "wide7": "C(C(l,l),l,l,l,R(l,l),l,l)",
     "width1": "C(C(l),O(l),l)",
